@@ -920,6 +920,55 @@ def check_separated_case(xml, q, qd, act, name, hist):
   return None, info
 
 
+BEYOND_PI_XML = '''<mujoco><compiler angle="radian" autolimits="false"/><option timestep="0.002" gravity="0 0 0"/>
+<worldbody><body name="b" pos="0 0 1"><joint name="j" type="hinge" axis="0 1 0" pos="0 0 0" limited="true" range="-1 4"/>
+<geom type="capsule" size="0.05 0.2" pos="0.1 0 0" contype="0" conaffinity="0"/></body></worldbody></mujoco>'''
+
+
+def hinge_beyond_pi(sysm, q):
+  """a limited hinge dof whose coordinate lies beyond +-pi (spring/positional measure joint angles in (-pi, pi])"""
+  q = np.asarray(q, dtype=float)
+  lim = sysm.dof.limit
+  if lim is None:
+    return False
+  lo, hi = np.asarray(lim[0]), np.asarray(lim[1])
+  ang = np.asarray(sysm.dof.motion.ang)
+  qpos = dpos = 0
+  for t in sysm.link_types:
+    wq, wd = (7, 6) if t == 'f' else (int(t), int(t))
+    if t != 'f':
+      for j in range(wd):
+        if np.any(ang[dpos + j] != 0) and (np.isfinite(lo[dpos + j]) or np.isfinite(hi[dpos + j])) and abs(q[qpos + j]) > np.pi:
+          return True
+    qpos += wq; dpos += wd
+  return False
+
+
+def unwrap_hinges(sysm, q0, q1):
+  """q1 with every hinge coordinate shifted by the multiple of 2 pi that brings it closest to q0"""
+  q0 = np.asarray(q0, dtype=float); q1 = np.array(np.asarray(q1, dtype=float))
+  ang = np.asarray(sysm.dof.motion.ang)
+  qpos = dpos = 0
+  for t in sysm.link_types:
+    wq, wd = (7, 6) if t == 'f' else (int(t), int(t))
+    if t != 'f':
+      for j in range(wd):
+        if np.any(ang[dpos + j] != 0):
+          d = q1[qpos + j] - q0[qpos + j]
+          q1[qpos + j] = q0[qpos + j] + d - 2 * np.pi * np.round(d / (2 * np.pi))
+    qpos += wq; dpos += wd
+  return q1
+
+
+def reproduce_known(ctx, entry):
+  """re-run the stored case of a listed finding of the limit clause on the current tree"""
+  if entry.get('clause') != 'limit' or 'xml' not in entry:
+    return True
+  worker_setup(ctx.repo)
+  f, _ = check_limit_case(entry['xml'], np.array(entry['q']), np.array(entry['qd']), np.array(entry['act']), entry['pipeline'])
+  return f is not None and f['key'] == entry['key']
+
+
 def check_limit_case(xml, q, qd, act, name):
   """clause (b) on one input: model with range limits, q strictly inside every range before and after the step,
   vs the same model with every range/limited removed: same state after one step (1e-9)"""
@@ -934,7 +983,8 @@ def check_limit_case(xml, q, qd, act, name):
   if not inside_ranges(sa, q, 1e-3):
     return None, dict(skipped='outside-before')
   a1, b1 = pa.step(pa.init(q, qd), act), pb.step(pb.init(q, qd), act)
-  if not (inside_ranges(sa, a1.q, 1e-3) and inside_ranges(sa, b1.q, 1e-3)):
+  # spring/positional report hinge coordinates in (-pi, pi]: compare the coordinate continued from q (same angle mod 2 pi)
+  if not (inside_ranges(sa, unwrap_hinges(sa, q, a1.q), 1e-3) and inside_ranges(sa, unwrap_hinges(sa, q, b1.q), 1e-3)):
     return None, dict(skipped='outside-after')
   fld, ratio, dabs = state_diff(a1, b1)
   ua, ub = unit_dev(a1), unit_dev(b1)
@@ -946,6 +996,8 @@ def check_limit_case(xml, q, qd, act, name):
                 + (' on a model without contact pairs' if no_pairs else '')), info
   if ratio > TOL:
     key = KEY_D7 if (name == 'positional' and lefthanded_3hinge(sa)) else f'limit:{name}:state'
+    if name in ('spring', 'positional') and hinge_beyond_pi(sa, q):
+      key = f'limits-inert:{name}:hinge-range-beyond-pi'
     return dict(base, key=key, what=f'{name}: one step with unreached range limits (q strictly inside every range before and after) '
                 f'differs from the step of the limit-free model: {fld} by {dabs:.3e}', types=sa.link_types), info
   return None, info
